@@ -100,6 +100,7 @@ func runProperty(id string, pc *PropConfig, repo string, overlay map[string][]by
 		res.Errors = append(res.Errors, "load: "+err.Error())
 		return res
 	}
+	eng.DeepVacuity = cross || os.Getenv("GOVC_DEEP") != ""
 	extra := map[string]string{}
 	for _, f := range pc.External {
 		extra[filepath.Join(verifDir, "contracts", "external", f)] = ""
